@@ -14,11 +14,23 @@ type Sc struct{ T Term }         // scalar: Int, Bool, Str, Real, or SMT array (
 type StructV struct{ F []Value } // parallel to the fields of the struct type
 type SliceV struct{ Base, Off, Len, Cap Term }
 type TupleV struct{ E []Value }
+type ArrayV struct{ E []Value } // small fixed array with composite elements
 
 func (Sc) isValue()      {}
 func (StructV) isValue() {}
 func (SliceV) isValue()  {}
 func (TupleV) isValue()  {}
+func (ArrayV) isValue()  {}
+
+const maxArrayV = 8
+
+func arrayVLen(t types.Type) (int, types.Type, bool) {
+	a, ok := t.Underlying().(*types.Array)
+	if !ok || isOpaque(t) || a.Len() > maxArrayV || shapeKindOf(a.Elem()) == kScalar {
+		return 0, nil, false
+	}
+	return int(a.Len()), a.Elem(), true
+}
 
 type shapeKind int
 
@@ -192,6 +204,13 @@ func rangeFact(v Value, t types.Type) Term {
 			cs = append(cs, rangeFact(f, tt.At(i).Type()))
 		}
 		return and(cs...)
+	case ArrayV:
+		_, et, _ := arrayVLen(t)
+		var cs []Term
+		for _, f := range x.E {
+			cs = append(cs, rangeFact(f, et))
+		}
+		return and(cs...)
 	}
 	return tTrue
 }
@@ -217,6 +236,14 @@ func zeroValue(t types.Type) Value {
 			es = append(es, zeroValue(tt.At(i).Type()))
 		}
 		return TupleV{es}
+	case kArrayOfComposite:
+		if n, et, ok := arrayVLen(t); ok {
+			es := make([]Value, n)
+			for i := range es {
+				es[i] = zeroValue(et)
+			}
+			return ArrayV{es}
+		}
 	}
 	return Sc{intLit(0)}
 }
@@ -243,6 +270,13 @@ func iteValue(c Term, a, b Value) Value {
 			es[i] = iteValue(c, x.E[i], y.E[i])
 		}
 		return TupleV{es}
+	case ArrayV:
+		y := b.(ArrayV)
+		es := make([]Value, len(x.E))
+		for i := range x.E {
+			es[i] = iteValue(c, x.E[i], y.E[i])
+		}
+		return ArrayV{es}
 	}
 	panic("iteValue")
 }
@@ -261,6 +295,12 @@ func flatten(v Value) []Term {
 	case SliceV:
 		return []Term{x.Base, x.Off, x.Len, x.Cap}
 	case TupleV:
+		var out []Term
+		for _, f := range x.E {
+			out = append(out, flatten(f)...)
+		}
+		return out
+	case ArrayV:
 		var out []Term
 		for _, f := range x.E {
 			out = append(out, flatten(f)...)
@@ -291,6 +331,14 @@ func leafSorts(t types.Type) []string {
 			out = append(out, leafSorts(tt.At(i).Type())...)
 		}
 		return out
+	case kArrayOfComposite:
+		if n, et, ok := arrayVLen(t); ok {
+			var out []string
+			for i := 0; i < n; i++ {
+				out = append(out, leafSorts(et)...)
+			}
+			return out
+		}
 	}
 	return []string{SInt}
 }
@@ -318,6 +366,16 @@ func unflatten(t types.Type, leaves []Term) (Value, []Term) {
 			es = append(es, f)
 		}
 		return TupleV{es}, leaves
+	case kArrayOfComposite:
+		if n, et, ok := arrayVLen(t); ok {
+			var es []Value
+			for i := 0; i < n; i++ {
+				var f Value
+				f, leaves = unflatten(et, leaves)
+				es = append(es, f)
+			}
+			return ArrayV{es}, leaves
+		}
 	}
 	return Sc{leaves[0]}, leaves[1:]
 }
@@ -356,6 +414,14 @@ func eqValue(a, b Value, t types.Type) Term {
 		var cs []Term
 		for i := range x.E {
 			cs = append(cs, eqValue(x.E[i], y.E[i], tt.At(i).Type()))
+		}
+		return and(cs...)
+	case ArrayV:
+		y := b.(ArrayV)
+		_, et, _ := arrayVLen(t)
+		var cs []Term
+		for i := range x.E {
+			cs = append(cs, eqValue(x.E[i], y.E[i], et))
 		}
 		return and(cs...)
 	}
